@@ -271,6 +271,7 @@ func c06Check(strat workload.Strategy, pathAware bool, r0 map[string]interface{}
 	}
 	used := make([]bool, len(entries))
 	badListSeen := map[string]bool{}
+	twinSeen := map[string]bool{}
 	fragNote := ""
 	entryPath := func(m map[string]interface{}) []interface{} {
 		p, _ := m["path"].([]interface{})
@@ -286,6 +287,11 @@ func c06Check(strat workload.Strategy, pathAware bool, r0 map[string]interface{}
 			msg, _ := m["message"].(string)
 			match := strings.Contains(msg, f.Tag)
 			wantPath := f.Path
+			if f.Kind == workload.FaultShared {
+				// one error value returned by several sites: entries can only be told
+				// apart by their path
+				match = !used[i] && strings.Contains(msg, "#shared#") && (!pathAware || workload.CanonLite(stripFrag(entryPath(m))) == f.Path)
+			}
 			if f.Kind == workload.FaultBadLeaf {
 				match = !used[i] && strings.Contains(msg, "badLeaf") && (!pathAware || workload.CanonLite(stripFrag(entryPath(m))) == f.Path)
 			}
@@ -335,6 +341,21 @@ func c06Check(strat workload.Strategy, pathAware bool, r0 map[string]interface{}
 				return "wrong_error_path", fmt.Sprintf("failure at %s (%s) is reported with path %s", f.Path, f.Kind, workload.CanonLite(ep))
 			}
 		pathOK:
+			if f.Kind == workload.FaultShared {
+				ext, _ := m["extensions"].(map[string]interface{})
+				if ext == nil || ext["code"] != "ES" {
+					return "extensions_lost", fmt.Sprintf("the shared error value returned at %s carried extensions {code: ES}, the entry has %v", f.Path, m["extensions"])
+				}
+				break // one entry per site
+			}
+			if f.Kind == workload.FaultTwinGroup && strings.Contains(msg, "twin") {
+				ext, _ := m["extensions"].(map[string]interface{})
+				code, _ := ext["code"].(string)
+				if code != "E"+strconv.Itoa(f.N)+"t1" && code != "E"+strconv.Itoa(f.N)+"t2" || twinSeen[code] {
+					return "extensions_lost", fmt.Sprintf("the two equal-text members of the group returned at %s carried extensions {code: E%dt1} and {code: E%dt2}; an entry has %v", f.Path, f.N, f.N, m["extensions"])
+				}
+				twinSeen[code] = true
+			}
 			if f.Kind == workload.FaultGGQLError {
 				ext, _ := m["extensions"].(map[string]interface{})
 				if ext == nil || ext["code"] != "E"+strconv.Itoa(f.N) {
@@ -424,14 +445,17 @@ func stripFrag(p []interface{}) []interface{} {
 }
 
 var c06Kinds = []string{workload.FaultError, workload.FaultGGQLError, workload.FaultErrorGroup, workload.FaultBadLeaf,
-	workload.FaultGroupExt, workload.FaultNestedGrp, workload.FaultBadList}
+	workload.FaultGroupExt, workload.FaultNestedGrp, workload.FaultBadList, workload.FaultTwinGroup}
 
 func (c C06) Run(t *tape.Tape, opt core.RunOpt) (res core.Result) {
 	strat := []workload.Strategy{workload.StratInterface, workload.StratInterface, workload.StratAnyWrapped, workload.StratAnyWrapped, workload.StratReflect, workload.StratAny}[t.Draw(6)]
 	pathAware := strat == workload.StratInterface || strat == workload.StratAnyWrapped
 	q := workload.GenZoo(t)
 	q.UseListResolver = t.Bool(1, 2)
-	req := workload.GenRequest(t, workload.ReqOpt{Strat: strat, NoErrors: true, UniqueKeys: true, NoUnion: pathAware, NoFragments: !pathAware,
+	// reflection: a method whose Go parameter cannot take the null the schema
+	// allows is a failure site of its own (the call is refused)
+	nick := strat == workload.StratReflect && t.Bool(1, 3)
+	req := workload.GenRequest(t, workload.ReqOpt{Strat: strat, NoErrors: true, UniqueKeys: true, NoUnion: pathAware, NoFragments: !pathAware, Nick: nick,
 		MultiOp: t.Bool(1, 5), VarInLiteral: strat != workload.StratReflect, ShuffleArgs: true, MaxDepth: 2 + t.Draw(4)})
 	thorough := opt.Tier == "thorough"
 	r0, tr0, pan := resolveTracked(q, strat, req, &workload.FaultPlan{})
@@ -443,6 +467,40 @@ func (c C06) Run(t *tape.Tape, opt core.RunOpt) (res core.Result) {
 	}
 	if pan != "" {
 		res.Count("fault_free_resolution_panicked", 1)
+		return
+	}
+	if ea, has := r0["errors"].([]interface{}); has && nick {
+		// no injected fault, but refused reflective calls: each is reported once,
+		// at a path that addresses a null position of the data
+		seenPath := map[string]bool{}
+		for _, e := range ea {
+			m, _ := e.(map[string]interface{})
+			msg, _ := m["message"].(string)
+			if !strings.Contains(msg, "reflection error") {
+				res.Count("fault_free_response_has_errors_skipped", 1)
+				return
+			}
+			p, _ := m["path"].([]interface{})
+			ps := workload.CanonLite(p)
+			v, ok := valueAt(r0["data"], stripFrag(p))
+			cls, detail := "", ""
+			switch {
+			case !ok:
+				cls, detail = "error_path_addresses_nothing", "does not address a position of the response data"
+			case v != nil:
+				cls, detail = "failed_position_not_null", "addresses a value that is not null: "+workload.CanonLite(v)
+			case seenPath[ps]:
+				cls, detail = "failure_not_reported_exactly_once", "is reported twice"
+			}
+			seenPath[ps] = true
+			if cls != "" {
+				res.Violate("C06", cls, fmt.Sprintf("reflection strategy, a method call refused because the request arguments do not fit the Go method (%s): the error path %s %s\nrequest (op %q, vars %v):\n%s\nresponse: %s",
+					msg, ps, detail, req.Op, req.Vars, req.Src, workload.CanonLite(r0)), nil)
+				return
+			}
+		}
+		res.NonTrivial = true
+		res.Count("fault_reflective_call_refused_arguments_do_not_fit", len(ea))
 		return
 	}
 	if _, has := r0["errors"]; has {
@@ -539,10 +597,15 @@ func (c C06) Run(t *tape.Tape, opt core.RunOpt) (res core.Result) {
 		for c := 0; c < 3; c++ {
 			m := 2 + t.Draw(2)
 			plan := &workload.FaultPlan{FailPath: map[string]string{}, FailAt: map[int]string{}}
+			// every site of the plan returns one and the same *ggql.Error value
+			sharedPlan := t.Bool(1, 3)
 			var descs []string
 			for i := 0; i < m; i++ {
 				st := sites[t.Draw(len(sites))]
 				k := c06Kinds[t.Draw(len(c06Kinds))]
+				if sharedPlan {
+					k = workload.FaultShared
+				}
 				if st.typ == "list" {
 					k = workload.FaultNthError
 				}
